@@ -180,9 +180,21 @@ func (g *govWorld) distUpdate(r *kernel.Run, rng *kernel.Rng, authority string) 
 		if err != nil {
 			return nil
 		}
-		if g.OddNames && len(np.SubDistributors) > 0 && rng.Intn(12) == 0 {
+		if g.OddNames && len(np.SubDistributors) > 0 && rng.Intn(5) == 0 {
 			// a name that is not valid UTF-8 (fine on the wire, not in the JSON genesis)
-			np.SubDistributors[0].Name += "\xff"
+			if rng.Intn(4) == 0 {
+				np.SubDistributors[0].Name += "\xff"
+			} else {
+				// the id of a MAIN-type account is never used, but it is stored and exported
+				for _, src := range np.SubDistributors[0].Sources {
+					if src != nil && src.Type == disttypes.Main {
+						src.Id = "main\xff"
+					}
+				}
+				if np.SubDistributors[0].Destinations.PrimaryShare.Type == disttypes.Main {
+					np.SubDistributors[0].Destinations.PrimaryShare.Id = "main\xfe"
+				}
+			}
 		}
 		return &disttypes.MsgUpdateParams{Authority: authority, SubDistributors: np.SubDistributors}
 	case 1:
